@@ -145,6 +145,39 @@ class SymArray(_np.ndarray):
     def argmin(self, axis=None, **k):
         return argmin(self, axis=axis)
 
+    # comparisons stay lazy: an object array of (symbolic) booleans; nothing is decided until a mask is used
+    def _cmp(self, other, op):
+        res = _map2(op, self, other)
+        if isinstance(res, _np.ndarray):
+            flat = res.reshape(-1)
+            if builtins.all(isinstance(v, (bool, _np.bool_)) for v in flat):
+                return _np.asarray(res, dtype=bool)
+        return res
+
+    def __lt__(self, o):
+        return self._cmp(o, lambda a, b: _ex(a) < _ex(b))
+
+    def __le__(self, o):
+        return self._cmp(o, lambda a, b: _ex(a) <= _ex(b))
+
+    def __gt__(self, o):
+        return self._cmp(o, lambda a, b: _ex(a) > _ex(b))
+
+    def __ge__(self, o):
+        return self._cmp(o, lambda a, b: _ex(a) >= _ex(b))
+
+    def __eq__(self, o):
+        if o is None or isinstance(o, str):
+            return False
+        return self._cmp(o, lambda a, b: _ex(a) == _ex(b))
+
+    def __ne__(self, o):
+        if o is None or isinstance(o, str):
+            return True
+        return self._cmp(o, lambda a, b: _ex(a) != _ex(b))
+
+    __hash__ = None
+
     def __setitem__(self, key, value):
         if isinstance(value, _np.ndarray) and value.ndim == 0 and value.dtype == object:
             value = value[()]
@@ -303,7 +336,16 @@ def _map1(f, a):
         return out.view(SymArray)
     if isinstance(a, (list, tuple)):
         return _map1(f, asarray(a))
-    return f(a)
+    return _npscalar(f(a))
+
+
+def _npscalar(v):
+    """Results of numpy functions on scalars are numpy scalars (they have .shape/.ndim)."""
+    if isinstance(v, Sx):
+        return v.as_np()
+    if isinstance(v, (int, Fraction)) and not isinstance(v, bool):
+        return Sx.const(v).as_np() if core.Ctx.current is not None else v
+    return v
 
 
 def _map2(f, a, b):
@@ -318,7 +360,7 @@ def _map2(f, a, b):
         for i in range(fo.size):
             fo[i] = f(fa[i], fb[i])
         return out.view(SymArray)
-    return f(a, b)
+    return _npscalar(f(a, b))
 
 
 def _sx(v):
@@ -542,14 +584,16 @@ def hypot(a, b):
 
 
 def radians(x):
-    return asarray_or_scalar(x) * (pi_value() / 180)
+    r = asarray_or_scalar(x) * (pi_value() / 180)
+    return _npscalar(r) if not isinstance(r, _np.ndarray) else r
 
 
 deg2rad = radians
 
 
 def degrees(x):
-    return asarray_or_scalar(x) * (180 / pi_value())
+    r = asarray_or_scalar(x) * (180 / pi_value())
+    return _npscalar(r) if not isinstance(r, _np.ndarray) else r
 
 
 rad2deg = degrees
@@ -1067,7 +1111,7 @@ class _Lib:
     class scimath:
         @staticmethod
         def arcsin(x):
-            raise NotEncodable('scimath.arcsin (use thin-film harness atoms)')
+            return _map1(lambda v: core.sx_arcsin(_sx(v)), x)
 
 
 lib = _Lib()
@@ -1095,6 +1139,10 @@ def trapezoid(y, x=None, dx=1.0, axis=-1):
         d = x[1:] - x[:-1]
         res = _np.sum((y[..., 1:] + y[..., :-1]) * d * Fraction(1, 2), axis=-1)
     return _wrap(res) if isinstance(res, _np.ndarray) else res
+
+
+def arcsin(x):
+    return _map1(lambda v: core.sx_arcsin(_sx(v)), x)
 
 
 def sinc(x):
